@@ -122,7 +122,7 @@ where
                     // There are no duplicate constant constraints. Create a new constraint
                     // to follow the fulfillment of the variable domain constraints.
                     let c = DistinctFd2Constraint::new(self.u.clone(), x, n);
-                    Ok(state.with_constraint(c))
+                    c.run(state)
                 } else {
                     // If there are duplicate constants in the array, then the constraint is
                     // already violated.
